@@ -963,6 +963,9 @@ fn shared_race_child(seed: u64, k: u64) {
     let via_try = [g.bool(), g.bool()];
     let delays: [u64; 2] = [*g.pick(&[200u64, 2_000, 20_000, 200_000, 2_000_000]), *g.pick(&[200u64, 2_000, 20_000, 200_000, 2_000_000])];
     let focus: Vec<Option<usize>> = (0..n_pollers).map(|_| if g.chance(1, 2) { Some(g.usize(6)) } else { None }).collect();
+    // in a third of the children the main thread initialises from the `setup:` fn of a span on the implicit
+    // (shared) runtime: `#[emit::span(setup: init, "main")] fn main_like()`, sync or async, plain or result-aware
+    let setup_span: Option<u64> = if g.chance(1, 3) { Some(g.below(4)) } else { None };
     let t0 = std::time::Instant::now();
 
     // a process that cannot finish is reported as such (never as a verdict)
@@ -1009,7 +1012,10 @@ fn shared_race_child(seed: u64, k: u64) {
         res
     };
 
+    let mut span_panic: Option<String> = None;
+    let span_panic_ref = &mut span_panic;
     let (mut threads, outcomes): (Vec<ShThread>, Vec<Result<bool, String>>) = std::thread::scope(|s| {
+        let span_panic = span_panic_ref;
         let mut handles = Vec::new();
         for (p, focus) in focus.iter().enumerate() {
             let gate = &gate;
@@ -1039,7 +1045,29 @@ fn shared_race_child(seed: u64, k: u64) {
             None
         };
         gate.open(n_pollers + rival as usize);
-        let mine = attempt(0);
+        let mine = match setup_span {
+            None => attempt(0),
+            Some(form) => {
+                let out = RefCell::new(None);
+                let init = || {
+                    *out.borrow_mut() = Some(attempt(0));
+                };
+                let id = 11u64;
+                if let Err(m) = catch(|| match form {
+                    0 => sh_main_like(&init, id),
+                    1 => sp_block_on(sh_main_like_async(&init, id)),
+                    2 => {
+                        let _ = sh_main_like_result(&init, id, k % 2 == 0);
+                    }
+                    _ => {
+                        let _ = sp_block_on(sh_main_like_result_async(&init, id, k % 2 == 0));
+                    }
+                }) {
+                    *span_panic = Some(m);
+                }
+                out.into_inner().unwrap_or_else(|| Err("the setup fn of the span was never invoked".into()))
+            }
+        };
         let mut outcomes = vec![mine];
         let mut threads: Vec<ShThread> = Vec::new();
         if let Some(h) = rival_h {
@@ -1085,6 +1113,10 @@ fn shared_race_child(seed: u64, k: u64) {
     let w = winners.first().map(|i| tags[*i]);
     let mut both = 0u64;
     let mut delivered_after = 0u64;
+    let mut setup_span_seen = [0u64; 2];
+    if let Some(m) = &span_panic {
+        viol.push(("C20:shared-accessor:setup-param:panicked".into(), format!("the span fn whose setup fn initialises the shared slot panicked: {}", m)));
+    }
     for t in &mut threads {
         for (acc, tag) in t.tags.clone() {
             if Some(tag) != w {
@@ -1109,6 +1141,16 @@ fn shared_race_child(seed: u64, k: u64) {
                     t.viol.push(("C20:shared-accessor:macro-event:components-of-other-configuration".into(), format!("the event emitted through the macros after init carries who={:?} extent={:?}, winner {:?}", d.who, d.secs, w)));
                 }
             }
+            if d.msg.starts_with("c20 shared setup") {
+                // emitted by / inside the span fn whose setup fn ran the main thread's initialisation
+                let is_span = d.msg.starts_with("c20 shared setup main");
+                setup_span_seen[if is_span { 0 } else { 1 }] += 1;
+                let ok_secs = if is_span { matches!(d.secs, Some((Some(a), b)) if Some(a) == w && Some(b) == w) } else { matches!(d.secs, Some((None, b)) if Some(b) == w) };
+                let ok_ids = w.map(|w| d.trace.as_deref() == Some(trace_text(w).as_str()) && d.span.as_deref() == Some(span_text(w).as_str())).unwrap_or(false);
+                if d.who != w || !ok_secs || !ok_ids {
+                    t.viol.push(("C20:shared-accessor:setup-param:components-of-other-configuration".into(), format!("`{}` (span fn whose setup fn initialises the shared slot) carries who={:?} extent={:?} trace={:?} span={:?}, winner {:?}", d.msg, d.who, d.secs, d.trace, d.span, w)));
+                }
+            }
             if d.msg.starts_with("c20 shared pre") {
                 t.viol.push(("C20:shared-accessor:before-init:event-delivered".into(), format!("an event emitted before any initialisation was delivered: {:?}", d.msg)));
             }
@@ -1121,6 +1163,12 @@ fn shared_race_child(seed: u64, k: u64) {
     if winners.len() == 1 && delivered_after != 1 {
         viol.push(("C20:shared-accessor:after-init:macro-event-not-delivered-once".into(), format!("the event emitted through emit::emit! after init() returned was delivered {} times", delivered_after)));
     }
+    // the setup fn runs BEFORE the span is created: when the main thread's own attempt won, the span and the event in
+    // its body went through the shared slot after this very thread had initialised it (a lost attempt constrains nothing)
+    let setup_span_won = setup_span.is_some() && winners == [0] && span_panic.is_none();
+    if setup_span_won && setup_span_seen != [1, 1] {
+        viol.push(("C20:shared-accessor:setup-param:span-not-emitted-through-the-runtime-its-setup-initialised".into(), format!("the span fn (form {:?}) whose setup fn initialised the shared slot: its span event was delivered {} time(s), the event in its body {} time(s) (expected once each, through configuration {:?})", setup_span, setup_span_seen[0], setup_span_seen[1], w)));
+    }
     let col = |f: &dyn Fn(&AccStat) -> u64, roles: &[&str]| -> Vec<u64> { (0..6).map(|k| threads.iter().filter(|t| roles.contains(&t.role)).map(|t| f(&t.stats[k])).sum()).collect() };
     let all = ["main-before", "poller", "rival", "main", "fresh-thread"];
     let viol_json: Vec<Json> = viol.iter().map(|(s, w)| json!([s, w])).collect();
@@ -1132,6 +1180,7 @@ fn shared_race_child(seed: u64, k: u64) {
             "calls": col(&|s| s.calls, &all), "before": col(&|s| s.before, &all), "after": col(&|s| s.after, &all),
             "after_pollers": col(&|s| s.after, &["poller"]),
             "overlap": col(&|s| s.overlap, &all), "overlap_inert": col(&|s| s.overlap_inert, &all), "overlap_live": col(&|s| s.overlap_live, &all),
+            "setup_span": setup_span, "setup_span_won": setup_span_won,
             "pollers_that_saw_both": both, "viol": viol_json, "wall_ms": t0.elapsed().as_millis() as u64,
         })
     );
@@ -1243,6 +1292,12 @@ fn run_shared_children(r: &mut Report, args: &Args, n: u64, ks: Option<Vec<u64>>
         r.observe("shared-accessor:calls-overlapping-init:answered-live", ovl.iter().sum());
         let both = v.get("pollers_that_saw_both").and_then(|x| x.as_u64()).unwrap_or(0);
         r.observe("shared-accessor:pollers-that-saw-inert-then-live", both);
+        if v.get("setup_span").map(|x| !x.is_null()).unwrap_or(false) {
+            r.observe("shared-accessor:children-initialising-from-the-setup-fn-of-a-span", 1);
+            if v.get("setup_span_won").and_then(|x| x.as_bool()).unwrap_or(false) {
+                r.observe("shared-accessor:children-initialising-from-the-setup-fn-of-a-span:that-attempt-won", 1);
+            }
+        }
         let n_ov: u64 = ov.iter().sum();
         if n_ov > 0 {
             overlapped_children += 1;
@@ -1275,6 +1330,321 @@ fn run_shared_children(r: &mut Report, args: &Args, n: u64, ks: Option<Vec<u64>>
     }
 }
 
+// ---------------------------------------------------------------------------
+// `setup:` on a span whose setup fn INITIALISES the slot the span goes through
+// ---------------------------------------------------------------------------
+//
+// `#[emit::span(rt: SLOT.get(), setup: init, "main")] fn main_like()` where `init` does
+// `emit::setup()...init_slot(&SLOT)`: the macro documents `setup:` as "invoke the expression before
+// creating the span", so the slot is observed enabled (by this very thread, inside `init`) before the
+// span exists, and from that moment every use of the slot - the span's own creation and completion
+// included - goes through all five components of the winning configuration. One case = one fresh
+// `AmbientSlot` on the stack and one call of a span fn (sync / async x plain / result-aware ok / err /
+// `guard:` form) whose body emits an event and opens a nested span through the same slot.
+//
+// Scenarios: the setup fn initialises the empty slot with `init_slot` / `try_init_slot`; controls: the
+// slot was initialised before the call and the setup fn does nothing / loses a `try_init_slot` with a
+// second configuration; the slot stays empty (setup fn does nothing): everything is a no-op.
+//
+// Rules (single thread, every filter says yes, so delivery is deterministic):
+// * exactly one span event of the outer fn, one body event, one nested span event, one nested body
+//   event - all delivered by the winner's emitter, with the winner's ctxt tag, extents read from the
+//   winner's clock (span events: start AND end) and trace / span ids made by the winner's rng;
+// * no component of any other configuration is called, nothing is swallowed by the inert runtime;
+// * the empty-slot scenario delivers nothing, calls nothing, panics nowhere.
+
+const SP_FORMS: [&str; 8] = ["sync:plain", "sync:result-ok", "sync:result-err", "sync:guard", "async:plain", "async:result-ok", "async:result-err", "async:guard"];
+const SP_SCEN: [&str; 5] = ["setup-init_slot", "setup-try_init_slot", "control:initialised-before:setup-noop", "control:initialised-before:setup-loses-try_init_slot", "control:never-initialised"];
+
+type SpGuard<'a> = Option<emit::setup::Init<'a, TEmitter, TCtxt>>;
+
+/// The setup fn of the span sites: `how` 0 = `init_slot`, 1 = `try_init_slot`, else nothing.
+fn sp_setup<'a>(slot: &'a AmbientSlot, tag: u64, how: u8) -> SpGuard<'a> {
+    if how > 1 {
+        return None;
+    }
+    let s = emit::setup().emit_to(TEmitter { tag }).emit_when(TFilter { tag }).with_ctxt(TCtxt { tag }).with_clock(TClock { tag }).with_rng(TRng { tag });
+    if how == 0 {
+        Some(s.init_slot(slot))
+    } else {
+        s.try_init_slot(slot)
+    }
+}
+
+#[derive(Debug)]
+struct SpErr;
+impl std::fmt::Display for SpErr {
+    fn fmt(&self, f: &mut std::fmt::Formatter) -> std::fmt::Result {
+        f.write_str("c20 scripted error")
+    }
+}
+impl std::error::Error for SpErr {}
+
+struct SpYield(bool);
+impl std::future::Future for SpYield {
+    type Output = ();
+    fn poll(mut self: std::pin::Pin<&mut Self>, _: &mut std::task::Context<'_>) -> std::task::Poll<()> {
+        if self.0 {
+            std::task::Poll::Ready(())
+        } else {
+            self.0 = true;
+            std::task::Poll::Pending
+        }
+    }
+}
+
+fn sp_block_on<F: std::future::Future>(f: F) -> F::Output {
+    let mut f = std::pin::pin!(f);
+    let mut cx = std::task::Context::from_waker(std::task::Waker::noop());
+    for _ in 0..1_000 {
+        if let std::task::Poll::Ready(v) = f.as_mut().poll(&mut cx) {
+            return v;
+        }
+    }
+    panic!("c20 setup-param executor: poll budget exhausted");
+}
+
+#[emit::span(rt: slot.get(), "c20 setup nested {id}", id)]
+fn sp_nested(slot: &AmbientSlot, id: u64) {
+    emit::emit!(rt: slot.get(), "c20 setup nested-body {id}", id);
+}
+
+fn sp_body(slot: &AmbientSlot, id: u64) {
+    emit::emit!(rt: slot.get(), "c20 setup body {id}", id);
+    sp_nested(slot, id);
+}
+
+#[emit::span(rt: slot.get(), "c20 setup nested {id}", id)]
+async fn sp_nested_async(slot: &AmbientSlot, id: u64) {
+    SpYield(false).await;
+    emit::emit!(rt: slot.get(), "c20 setup nested-body {id}", id);
+}
+
+async fn sp_body_async(slot: &AmbientSlot, id: u64) {
+    emit::emit!(rt: slot.get(), "c20 setup body {id}", id);
+    SpYield(false).await;
+    sp_nested_async(slot, id).await;
+}
+
+#[emit::span(rt: slot.get(), setup: (|| sp_setup(slot, tag, how)), "c20 setup main {id}", id)]
+fn sp_sync_plain(slot: &AmbientSlot, tag: u64, how: u8, id: u64) -> u64 {
+    sp_body(slot, id);
+    id
+}
+
+#[emit::span(rt: slot.get(), setup: (|| sp_setup(slot, tag, how)), ok_lvl: emit::Level::Info, err_lvl: "warn", "c20 setup main {id}", id)]
+fn sp_sync_result(slot: &AmbientSlot, tag: u64, how: u8, id: u64, fail: bool) -> Result<u64, SpErr> {
+    sp_body(slot, id);
+    if fail {
+        return Err(SpErr);
+    }
+    Ok(id)
+}
+
+#[emit::span(rt: slot.get(), setup: (|| sp_setup(slot, tag, how)), guard: g, "c20 setup main {id}", id)]
+fn sp_sync_guard(slot: &AmbientSlot, tag: u64, how: u8, id: u64) -> u64 {
+    sp_body(slot, id);
+    g.complete();
+    id
+}
+
+#[emit::span(rt: slot.get(), setup: (|| sp_setup(slot, tag, how)), "c20 setup main {id}", id)]
+async fn sp_async_plain(slot: &AmbientSlot, tag: u64, how: u8, id: u64) -> u64 {
+    sp_body_async(slot, id).await;
+    id
+}
+
+#[emit::span(rt: slot.get(), setup: (|| sp_setup(slot, tag, how)), ok_lvl: emit::Level::Info, err_lvl: "warn", "c20 setup main {id}", id)]
+async fn sp_async_result(slot: &AmbientSlot, tag: u64, how: u8, id: u64, fail: bool) -> Result<u64, SpErr> {
+    sp_body_async(slot, id).await;
+    if fail {
+        Err(SpErr)?;
+    }
+    Ok(id)
+}
+
+#[emit::span(rt: slot.get(), setup: (|| sp_setup(slot, tag, how)), guard: g, "c20 setup main {id}", id)]
+async fn sp_async_guard(slot: &AmbientSlot, tag: u64, how: u8, id: u64) -> u64 {
+    sp_body_async(slot, id).await;
+    g.complete();
+    id
+}
+
+// the implicit form on the process-wide shared slot (used inside the race children, once per process)
+#[emit::span(setup: init, "c20 shared setup main {id}", id)]
+fn sh_main_like(init: &dyn Fn(), id: u64) {
+    emit::emit!("c20 shared setup body {id}", id);
+}
+
+#[emit::span(setup: init, "c20 shared setup main {id}", id)]
+async fn sh_main_like_async(init: &dyn Fn(), id: u64) {
+    SpYield(false).await;
+    emit::emit!("c20 shared setup body {id}", id);
+}
+
+#[emit::span(setup: init, ok_lvl: emit::Level::Info, err_lvl: "warn", "c20 shared setup main {id}", id)]
+fn sh_main_like_result(init: &dyn Fn(), id: u64, fail: bool) -> Result<u64, SpErr> {
+    emit::emit!("c20 shared setup body {id}", id);
+    if fail {
+        return Err(SpErr);
+    }
+    Ok(id)
+}
+
+#[emit::span(setup: init, ok_lvl: emit::Level::Info, err_lvl: "warn", "c20 shared setup main {id}", id)]
+async fn sh_main_like_result_async(init: &dyn Fn(), id: u64, fail: bool) -> Result<u64, SpErr> {
+    SpYield(false).await;
+    emit::emit!("c20 shared setup body {id}", id);
+    if fail {
+        Err(SpErr)?;
+    }
+    Ok(id)
+}
+
+fn setup_param_case(r: &mut Report, seed: u64, k: u64) {
+    let form = (k % 8) as usize;
+    let scen = ((k / 8) % 5) as usize;
+    let mut g = Rng::stream(seed, &[20, 9, k]);
+    let (w_tag, l_tag) = (tag_of(g.below(1_000_000), 3), tag_of(g.below(1_000_000), 4));
+    let id = (300u64 << 40) + k;
+    let is_async = form >= 4;
+    let kind = if is_async { "async" } else { "sync" };
+    let case = json!({"section": "setup-param", "seed": seed, "k": k, "form": SP_FORMS[form], "scenario": SP_SCEN[scen], "winner_tag": w_tag, "other_tag": l_tag});
+    r.eval();
+    r.observe("setup-param:cases", 1);
+    r.observe(&format!("setup-param:{}:{}", SP_SCEN[scen], SP_FORMS[form]), 1);
+
+    let slot = AmbientSlot::new();
+    let _ = take_log();
+    let pre = scen == 2 || scen == 3;
+    if pre {
+        let _ = sp_setup(&slot, w_tag, (k / 40 % 2) as u8);
+    }
+    let (tag, how) = match scen {
+        0 => (w_tag, 0u8),
+        1 => (w_tag, 1),
+        2 => (l_tag, 2),
+        3 => (l_tag, 1),
+        _ => (l_tag, 2),
+    };
+    let w = if scen == 4 { None } else { Some(w_tag) };
+    let slot_ref = &slot;
+    let res: Result<Result<u64, ()>, String> = catch(move || match form {
+        0 => Ok(sp_sync_plain(slot_ref, tag, how, id)),
+        1 => sp_sync_result(slot_ref, tag, how, id, false).map_err(|_| ()),
+        2 => sp_sync_result(slot_ref, tag, how, id, true).map_err(|_| ()),
+        3 => Ok(sp_sync_guard(slot_ref, tag, how, id)),
+        4 => Ok(sp_block_on(sp_async_plain(slot_ref, tag, how, id))),
+        5 => sp_block_on(sp_async_result(slot_ref, tag, how, id, false)).map_err(|_| ()),
+        6 => sp_block_on(sp_async_result(slot_ref, tag, how, id, true)).map_err(|_| ()),
+        _ => Ok(sp_block_on(sp_async_guard(slot_ref, tag, how, id))),
+    });
+    let log = take_log();
+    let enabled_after = slot.is_enabled();
+    let view_after = probe(slot.get());
+    let _ = take_log();
+    // a span fn left half-way by a panic may leave frames of the tagged ctxt entered on this thread
+    ENTERED.with(|e| e.borrow_mut().clear());
+
+    let mut case = case;
+    case["delivered"] = json!(log.delivered.iter().map(|d| json!({"emitter": d.tag, "msg": d.msg, "who": d.who, "secs": format!("{:?}", d.secs), "trace": d.trace, "span": d.span})).collect::<Vec<_>>());
+    case["component_calls"] = json!(log.uses.iter().map(|((c, t), n)| json!([COMPONENT[*c as usize], t, n])).collect::<Vec<_>>());
+
+    match &res {
+        Err(m) => {
+            r.violation(&format!("C20:setup-param:panicked:{}", kind), &format!("{} / {}: the span fn panicked: {}", SP_SCEN[scen], SP_FORMS[form], m), case.clone());
+            return;
+        }
+        Ok(v) => {
+            let want = if form == 2 || form == 6 { Err(()) } else { Ok(id) };
+            if *v != want {
+                // not the property's business, but nothing else looks at it: keep it visible
+                r.observe("setup-param:return-value-differs", 1);
+            }
+        }
+    }
+
+    let Some(w) = w else {
+        if !log.delivered.is_empty() || !log.uses.is_empty() || enabled_after || !is_inert(&view_after) {
+            r.violation(
+                &format!("C20:setup-param:never-initialised-slot-not-inert:{}", kind),
+                &format!("{}: a span fn whose setup fn initialises nothing ran on an empty slot: {} event(s) delivered, {} component call(s), enabled afterwards = {}", SP_FORMS[form], log.delivered.len(), log.uses.len(), enabled_after),
+                case,
+            );
+        }
+        return;
+    };
+
+    let ctl = if pre { "control:" } else { "" };
+    // which of the four expected events arrived, and how often
+    let names = [("c20 setup main", true, "span"), ("c20 setup body", false, "body-event"), ("c20 setup nested-body", false, "nested-body-event"), ("c20 setup nested ", true, "nested-span")];
+    for (prefix, is_span, what) in names {
+        let got: Vec<&Delivered> = log.delivered.iter().filter(|d| d.msg.starts_with(prefix)).collect();
+        if got.len() != 1 {
+            let sig = if what == "span" {
+                format!("C20:setup-param:{}span-not-emitted-through-the-runtime-its-setup-initialised:{}", ctl, kind)
+            } else {
+                format!("C20:setup-param:{}{}-not-delivered-once:{}", ctl, what, kind)
+            };
+            r.violation(&sig, &format!("{} / {}: the {} was delivered {} time(s) (expected once, by the emitter of configuration {}); the slot is {} afterwards", SP_SCEN[scen], SP_FORMS[form], what, got.len(), w, if enabled_after { "enabled" } else { "NOT enabled" }), case.clone());
+        }
+        for d in got {
+            let secs_ok = if is_span { d.secs == Some((Some(w), w)) } else { d.secs == Some((None, w)) };
+            let mut wrong = Vec::new();
+            if d.tag != w {
+                wrong.push(format!("emitter of configuration {}", d.tag));
+            }
+            if d.who != Some(w) {
+                wrong.push(format!("ctxt tag {:?}", d.who));
+            }
+            if !secs_ok {
+                wrong.push(format!("extent {:?} (clock)", d.secs));
+            }
+            if d.trace.as_deref() != Some(trace_text(w).as_str()) || d.span.as_deref() != Some(span_text(w).as_str()) {
+                wrong.push(format!("ids trace={:?} span={:?} (rng; the body's events carry the span's ids)", d.trace, d.span));
+            }
+            if !wrong.is_empty() {
+                r.violation(
+                    &format!("C20:setup-param:{}{}:components-of-other-configuration:{}", ctl, what, kind),
+                    &format!("{} / {}: the {} `{}` shows {} but the configuration that initialised the slot is {}", SP_SCEN[scen], SP_FORMS[form], what, d.msg, wrong.join(", "), w),
+                    case.clone(),
+                );
+            }
+        }
+    }
+    for ((component, t), n) in &log.uses {
+        if *t != w {
+            r.violation(
+                &format!("C20:setup-param:{}loser-component-called:{}", ctl, COMPONENT[*component as usize]),
+                &format!("{} / {}: the {} of configuration {} was called {} time(s), the slot holds {}", SP_SCEN[scen], SP_FORMS[form], COMPONENT[*component as usize], t, n, w),
+                case.clone(),
+            );
+        }
+    }
+    for c in [EMITTER, FILTER, CTXT, CLOCK, RNG] {
+        if !log.uses.contains_key(&(c, w)) {
+            r.violation(
+                &format!("C20:setup-param:{}winner-component-never-called:{}", ctl, COMPONENT[c as usize]),
+                &format!("{} / {}: the {} of the configuration that initialised the slot was never called by the span fn", SP_SCEN[scen], SP_FORMS[form], COMPONENT[c as usize]),
+                case.clone(),
+            );
+        }
+    }
+    if !enabled_after || view_after.iter().any(|c| *c != Some(w)) {
+        r.violation(
+            &format!("C20:setup-param:{}slot-after-the-call", ctl),
+            &format!("{} / {}: after the span fn returned the slot shows enabled={} view={:?}, expected all five components of {}", SP_SCEN[scen], SP_FORMS[form], enabled_after, view_after, w),
+            case.clone(),
+        );
+    }
+    if !pre {
+        r.nontrivial(&("setup-param", form, scen));
+    }
+    if r.wants_sample() && k % 13 == 0 {
+        r.sample(|| case);
+    }
+}
+
 fn main() {
     let args = Args::parse();
     if let Some(k) = args.get("child-shared-race") {
@@ -1286,7 +1656,8 @@ fn main() {
         &args,
         "one evaluation = one round (fresh AmbientSlot, racing tagged initialisers, observers, pre- and post-race use) judged by the tagged-component oracle; \
          non-trivial = distinct (initialisers, observers, winner index, threads that saw the slot both inert and initialised, init_slot callers) shapes among rounds in which \
-         at least two initialisation attempts overlapped in time (by SeqCst stamps)",
+         at least two initialisation attempts overlapped in time (by SeqCst stamps); plus the (form, scenario) pairs of the setup-param section in which \
+         the setup fn of the span itself initialised the fresh slot",
     );
     let sz = Sizes {
         max_init: args.get_u64("max-init", 16).clamp(2, 16),
@@ -1327,6 +1698,13 @@ fn main() {
     par_cases(&mut r, &a, n, |i, r| run_round(r, seed, i, &sz, false));
     // last: one round on the process-wide static slot behind `emit::runtime::shared()`
     run_round(&mut r, seed, n, &sz, true);
+
+    // span fns whose `setup:` fn initialises the slot the span goes through (fresh slot per case, one thread)
+    if !cfg!(miri) {
+        for k in 0..args.get_u64("setup-param-cases", args.n(400, 4_000)) {
+            setup_param_case(&mut r, seed, k);
+        }
+    }
 
     // the shared slot through the root crate's accessors, raced once per child process
     if !cfg!(miri) {
